@@ -29,7 +29,7 @@ func lemma_C11_integ_decode(tt uint8, id uint16, present bool, format uint8, at,
 
 // lengths from RFC 2403 (MD5: key 16, ICV 12), RFC 2404 (SHA-1: key 20, ICV 12),
 // RFC 4868 (SHA-256-128: key 32, ICV 16)
-func lemma_C11_integ_roundtrip(sel uint8) {
+func lemma_C11_integ_roundtrip(sel uint8, jt uint8, jid uint16, jp bool, jf uint8, jat, jav uint16) {
 	name, id, keyLen, outLen := AUTH_HMAC_MD5_96, uint16(1), 16, 12
 	switch sel % 3 {
 	case 1:
@@ -47,4 +47,11 @@ func lemma_C11_integ_roundtrip(sel uint8) {
 	tk := ToTransformChildSA(k)
 	verifAssert(tk.TransformType == 3 && tk.TransformID == id && !tk.AttributePresent, "C11/integK/transform-fields")
 	verifAssert(DecodeTransformChildSA(tk) == k, "C11/integK/transform-decodes-to-the-same-algorithm")
+	// whatever the caller then does to the transform it was handed, a later conversion
+	// of the same algorithm is unaffected: every conversion returns its own object
+	tr.TransformType, tr.TransformID, tr.AttributePresent, tr.AttributeFormat, tr.AttributeType, tr.AttributeValue = jt, jid, jp, jf, jat, jav
+	tk.TransformType, tk.TransformID, tk.AttributePresent, tk.AttributeFormat, tk.AttributeType, tk.AttributeValue = jt, jid, jp, jf, jat, jav
+	tr2, tk2 := ToTransform(a), ToTransformChildSA(k)
+	verifAssert(tr2.TransformType == 3 && tr2.TransformID == id && !tr2.AttributePresent && DecodeTransform(tr2) == a, "C11/integ/conversion-unaffected-by-edits-of-earlier-results")
+	verifAssert(tk2.TransformType == 3 && tk2.TransformID == id && !tk2.AttributePresent && DecodeTransformChildSA(tk2) == k, "C11/integK/conversion-unaffected-by-edits-of-earlier-results")
 }
